@@ -89,6 +89,22 @@ class LBCheck(BaseCheck):
       env.yielding_logs()
       env.log_yield_ok = w.lock_free
       classes.add('yielding-log-handler')
+    if idx % 7 == 5:
+      # a log handler whose I/O takes a moment, during which another member's connection is back: while the
+      # balancer reports a member it found down in the middle of choosing ('Marking node ... down'), a member
+      # that was down re-establishes its connection.  (No greenlet switch is made here - the state change is
+      # all that another greenlet would have done.)
+      def _while_logging(level, logger, msg):
+        req_ = w.dispatching
+        if req_ is None or not msg.startswith('Marking node') or rng.random() < 0.4:
+          return
+        downs = [c for c in w.heap_channels() if c.down and not c.close_steps and c._state != OPEN]
+        if downs:
+          c_ = rng.choice(downs)
+          c_.set_up()
+          req_.setdefault('up_during_choice', []).append(c_)
+          classes.add('member-up-while-choosing')
+      env.log_hook = _while_logging
     for ep in rng.sample(pool, n0):
       ss.truth[ep] = __import__('vlib.lbworld', fromlist=['Member']).Member(ep)
     prof = self.profile(rng, tier)
@@ -170,6 +186,15 @@ class LBCheck(BaseCheck):
         return
       open_p0 = [c for c in P0 if pre['states'][c] == OPEN]
       st = req['chan_state_at_dispatch']
+      came_up = [c for c in req.get('up_during_choice', ()) if c in P0 and c._state == OPEN and not c.close_steps]
+      if came_up and not open_p0:
+        # no member was open when the dispatch began, one of them came up while the balancer was choosing
+        # (it was busy reporting another one down at that moment): the choice it made afterwards is judged
+        ob('dispatch:')
+        if st != OPEN:
+          violate('dispatch:non-open-chosen', 'request %d went to %r (not open) although %r had come up while the balancer was '
+                  'still choosing (during its report that another member is down)' % (req['id'], ch, came_up[0]),
+                  {'came_up_while_choosing': True}, {'P0': [repr(c) for c in P0], 'heap': heap_dump()})
       if open_p0:
         ob('dispatch:')
         if st != OPEN:
